@@ -93,8 +93,8 @@ def layouts(chk, h, lang, cfgname):
     for i, l in enumerate(lays):
         g = l["gaps"]
         fills = sorted(g.values())
-        # compile the plain construct, every comment layout with one gap, and a slice of the rest
-        comp = (not fills) or (len(fills) == 1 and (fills[0] in ("bc", "lc", "bcnl", "bcsp", "semi", "hc", "zc") or i % 5 == 0)) or (len(fills) == 2 and i % 97 == 0)
+        # compile the plain construct, a third of the one-gap comment layouts, and a slice of the rest (each pair costs two compiler runs)
+        comp = (not fills) or (len(fills) == 1 and ((fills[0] in ("bc", "lc", "bcnl", "bcsp", "semi", "hc", "zc") and i % 3 == 0) or i % 7 == 0)) or (len(fills) == 2 and i % 97 == 0)
         cases.append({"id": i, "name": "p." + lang, "src": text_of(l["pieces"]), "compile": comp})
     results = run_cases(h, cases)
     bad_src = []
